@@ -88,6 +88,10 @@ def relevant(pid, clause, prog):
     """Is this clause a violation of property pid?  C12 is composite (fail-closed over the fringe scenarios)."""
     if clause.startswith(pid + '.'):
         return True
+    if pid == 'C15' and clause in ('C01.SegLenMin', 'C01.VrLenMin', 'C01.SegPadCount'):
+        return True      # "using flagged padding where the format demands a minimum length"
+    if pid == 'C20' and prog.get('meta', {}).get('kind') == 'rejected' and clause in ('C15.Writable', 'C12.MustRaise'):
+        return True      # "as if the call had never been made": the history without the rejected call is in process 2
     if pid == 'C12' and prog.get('meta', {}).get('fringe') and clause[:3] in ('C01', 'C02', 'C03', 'C04', 'C05', 'C07', 'C08', 'C09', 'C16'):
         return True
     return False
